@@ -139,7 +139,7 @@ pub fn run_sessions<S: Sync>(sessions: &[S], tmpdir: &Path, tag: &str, par: usiz
                 let file = std::fs::File::create(&tmp).unwrap();
                 let mut w = std::io::LineWriter::new(file);
                 let mut emit = |l: String| { writeln!(w, "{l}").unwrap(); w.flush().unwrap(); };
-                std::panic::set_hook(Box::new(|_| {}));
+                if std::env::var("VERIF_SHOW_PANIC").is_err() { std::panic::set_hook(Box::new(|_| {})); }
                 let r = std::panic::catch_unwind(std::panic::AssertUnwindSafe(|| f(&sessions[next], &mut emit)));
                 unsafe { libc::_exit(if r.is_ok() { 0 } else { 101 }) };
             }
